@@ -21,7 +21,7 @@ P = {
     "C08": (True, "lock-order/join graph acyclicity over lock classes", "Static rule discharge: lock+join graph acyclic, no guard across blocking waits, stop protocol shape, weak-only ticker captures, no guard in public signatures. 'Promptly' as a time bound is not decided.", "3/C08"),
     "C10": (True, "panic-edge ledger (totality)", "Static rule discharge of totality only: no unaudited panic edge reachable from with_template/template. Rendering fidelity is NOT decided.", "3/C10"),
     "C11": (True, "dispatch-table arm-effects vs documented keys", "Static rule discharge: each documented key has an arm that formats the expected accessor with the expected formatter; tracker write/tick/reset lifecycle; final tick string when finished. Not text equality.", "3/C11"),
-    "C12": (False, "unit (qualifier) inference Cols/Bytes", "Static rule discharge of unit discipline: column counts and byte offsets are never mixed in padding/truncation. Rendered width for all strings is NOT decided.", "3/C12"),
+    "C12": (True, "unit (qualifier) inference Cols/Bytes", "Static rule discharge of unit discipline: column counts and byte offsets are never mixed in padding/truncation. Rendered width for all strings is NOT decided.", "3/C12"),
     "C14": (True, "field-invariant producer/consumer + panic ledger", "Static rule discharge: every divisor/index bound the renderer takes from a style table is established by a guard at every public writer of that table; render-path panic ledger.", "3/C14"),
     "C15": (True, "panic-edge ledger (totality)", "Static rule discharge of totality: no unaudited panic edge in format.rs Display impls. Faithfulness/monotonicity NOT decided.", "3/C15"),
     "C16": (True, "setter/holder completeness dataflow", "Static rule discharge: every text setter expands with the bar's current width; every width/style change reaches every holder of expanded text; cache invalidation pairing; encapsulation of the raw text.", "3/C16"),
